@@ -327,13 +327,13 @@ E2_ASSUME = ['strings are valid UTF-8 by construction: concrete byte layout per 
              'the schema dimension is the finite corpus of lib/corpus.py (listed in coverage.corpus)',
              'CBMC/Kani translation of the compiled MIR is trusted']
 E2_BOUNDS = {
-    'schemas': 'the corpus of lib/corpus.py: string enums (incl. members whose identifier differs from the raw value), constrained strings (6 min/max combinations), string alias, string/integer deny lists, integer enums, flat structs (required/optional/defaulted/nullable/renamed members, open and closed), integer formats and bounds as members, nested structs, tuples, arrays, nullable objects',
+    'schemas': 'the corpus of lib/corpus.py: externally tagged enums (unit, closed/open struct and newtype variants), string enums (incl. members whose identifier differs from the raw value), constrained strings (6 min/max combinations), string alias, string/integer deny lists, integer enums, flat structs (required/optional/defaulted/nullable/renamed members, open and closed), integer formats and bounds as members, nested structs, tuples, arrays, nullable objects',
     'instances': 'per harness: concrete presence mask / array length / string width pattern; symbolic: every integer (i64 ∪ u64), boolean, null-vs-value choice of scalar nullables, every code point of every string',
     'strings': 'free strings of <= 3 Unicode scalar values per leaf (quick: selected width patterns; thorough: all 85 for enums, all patterns up to maxLength+1 for constrained strings)',
     'documents': '<= 24 tokens, <= 64 string bytes, strings <= 12 bytes',
     'unwind': 26,
 }
-E2_OUTSIDE = ['every schema not in the corpus', 'maps/sets (HashMap/HashSet do not return under CBMC), flattened members, untagged/internally/adjacently tagged enums, $ref recursion',
+E2_OUTSIDE = ['every schema not in the corpus', 'maps/sets (HashMap/HashSet do not return under CBMC), flattened members, untagged/internally/adjacently tagged enums (serde Content buffering), $ref recursion',
               'pattern, string formats (uuid, date-time, ip: third-party parsers)', 'JSON text level (number lexing, escapes): serde_json is not executed symbolically',
               'rendered-token obligations (derive lists, visibility, names): not a solver question']
 
@@ -364,13 +364,13 @@ GEN_FUNCS = ['typify_impl::TypeSpace::{add_ref_types, add_type, to_stream} (run 
              'the generated code: Deserialize/Serialize (serde_derive expansion of the emitted attributes), FromStr, TryFrom, Display, builder module, defaults module']
 
 PLAN['C02'] = mk_e2(
-    'C02', lambda tier, rng: e2_select('C02', tier, rng, r'_inst_\w+_(p|p2)$', 14, {'inst'}),
+    'C02', lambda tier, rng: e2_select('C02', tier, rng, r'_inst_\w+_(p|p2)$|_inst_events(_closed)?_v\d$|_inst_events_v3x0$', 14, {'inst'}),
     'bounded symbolic execution + SAT (Kani/CBMC) of generated Deserialize impls over schema-shaped instances with symbolic leaves',
     'bounded symbolic verification (Kani/CBMC) of the code typify generates for a stated schema corpus: every instance of the harness\'s concrete shape (all integers, booleans, strings up to the width pattern) that our draft-07 evaluator classifies valid deserializes into the generated type',
     GEN_FUNCS,
     'Bounded symbolic verification of generated deserializers: for each corpus schema and each enumerated instance shape the solver shows valid(S, v) => T_S::deserialize(v) is Ok for all leaf values.')
 PLAN['C03'] = mk_e2(
-    'C03', lambda tier, rng: e2_select('C03', tier, rng, r'_rt_(pt|defaults|withenum|triple|pair|nullable_obj|ints|renamed|nulldef|grid_bool|grid_int|grid_str|grid_str2)_p$|_rt_(pt|defaults|renamed|nulldef|grid_str2)_p0$|_rt_(defaults|renamed|grid_str|withenum)_pe$|_in_|_id_\w+$', 5),
+    'C03', lambda tier, rng: e2_select('C03', tier, rng, r'_rt_(pt|defaults|withenum|triple|pair|nullable_obj|ints|renamed|nulldef|grid_bool|grid_int|grid_str|grid_str2)_p$|_rt_(pt|defaults|renamed|nulldef|grid_str2)_p0$|_rt_(defaults|renamed|grid_str|withenum)_pe$|_rt_events_v(0|2|3|4)$|_in_|_id_\w+$', 5),
     'bounded symbolic execution + SAT (Kani/CBMC) of generated Deserialize -> Serialize -> Deserialize over symbolic valid instances',
     'bounded symbolic verification (Kani/CBMC) of the round trip through generated code for a stated corpus: declared members are kept with equal values, only null/empty optional members are dropped, only schema defaults are added, and serializing the defaults-filled instance again reproduces the same document',
     GEN_FUNCS,
@@ -407,7 +407,7 @@ PLAN['C18'] = mk_e2(
 
 def c05_all(tier, rng):
     u = c05_units(tier, rng)
-    u += e2_select('C05', tier, rng, r'_sc_len_2_3_(e|1|21|22|222|2222)$|_sc_len_0_1_(11|21)$|_sc_len_n_2_(111)$|_sd_notab_(1|m0)$|_in_|_id_\w+$|_inst_pt_closed_(x0|p)$|_inst_(pair|triple)_a0[pm]$|_se_colors_(1|21)$|_sn_colors_1_(x|s0)$', 14)
+    u += e2_select('C05', tier, rng, r'_sc_len_2_3_(e|1|21|22|222|2222)$|_sc_len_0_1_(11|21)$|_sc_len_n_2_(111)$|_sd_notab_(1|m0)$|_in_|_id_\w+$|_inst_pt_closed_(x0|p)$|_inst_(pair|triple)_a0[pm]$|_se_colors_(1|21)$|_sn_colors_1_(x|s0)$|_inst_events_v2(x0|t1)$|_inst_events_closed_v3(x0|t2)$', 14)
     return u
 
 
